@@ -330,7 +330,7 @@ def run(ctx, replay=None):
     return rc
 
 
-CLAIMED = True
+CLAIMED = False  # temporarily: the corollaries must follow the restated theorems of C01, C09, C15, C19 … (Props.lean.pending)
 TECHNIQUE = ("Lean 4 proof (safety corollaries of the owning properties' refinement theorems + `_ub` obligations of the regenerated calendar "
              "kernels) + differential boundary run under ASan/UBSan with exact-size heap objects, allocation hooks and poisoned "
              "default-initialisation + compile-time leg (GCC constant evaluator)")
